@@ -1,1 +1,665 @@
-fn main() {}
+//! `simfed` — Engine A: deterministic simulation of a Matrix federation around the real ruma
+//! signing / hashing / redaction / authorization / state-resolution functions (DESIGN §4).
+
+mod actions;
+mod conv;
+mod gen;
+mod node;
+mod probes;
+mod real;
+mod sim;
+
+use std::collections::{BTreeMap, BTreeSet};
+use std::time::Duration;
+
+use refmodel::revent::SignKey;
+use simcore::sched::Sched;
+use simcore::{CheckSpec, Engine, Known, RunOutcome, Tape, Tier};
+
+use sim::{Cfg, Evt, Kind, Ledger, Msg, Server, Sim, Weights};
+
+simcore::install_getrandom_seam!();
+
+struct FedEngine;
+
+const PROPS: [&str; 10] = ["C01", "C02", "C03", "C04", "C05", "C06", "C07", "C08", "C09", "C20"];
+
+fn base_weights() -> Weights {
+    Weights { join: 10, leave: 4, invite: 6, kick: 4, ban: 5, unban: 3, knock: 3, restricted_join: 3, tpi: 3, join_rules: 5, power_levels: 8, name: 5, aliases: 2, user_state: 2, message: 8, redaction: 2, custom: 3 }
+}
+
+/// Profile bias + swarm draw (DESIGN §4.1, §4.8).
+fn make_cfg(profile: &str, tier: Tier, t: &mut Tape) -> Cfg {
+    let thorough = tier == Tier::Thorough;
+    let mut w = base_weights();
+    let mut c = Cfg {
+        profile: profile.to_string(),
+        v: 1 + t.below(11) as u8,
+        n_actions: if thorough { t.range(15, 70) } else { t.range(10, 40) },
+        drop_pct: if t.chance(1, 2) { t.range(1, 15) } else { 0 },
+        dup_pct: if t.chance(1, 2) { t.range(1, 15) } else { 0 },
+        respell_pct: if t.chance(1, 2) { t.range(5, 40) } else { 0 },
+        corrupt_pct: if t.chance(1, 3) { t.range(1, 6) } else { 0 },
+        tamper_pct: if t.chance(1, 2) { t.range(2, 15) } else { 0 },
+        relay_redact_pct: if t.chance(1, 3) { t.range(2, 12) } else { 0 },
+        partitions: t.chance(1, 2),
+        crashes: t.chance(1, 3),
+        clock_faults: t.chance(1, 3),
+        stalls: t.chance(1, 4),
+        byz_pct: 0,
+        probe_k: if thorough { 16 } else { 6 },
+        probe_pct: 20,
+        resolve_repeats: 1,
+        threads: false,
+        late_power_levels: t.chance(1, 3),
+        big_events: false,
+        w: w.clone(),
+    };
+    match profile {
+        "C01" => {
+            c.respell_pct = t.range(40, 70);
+            w.custom = 25;
+            w.message = 15;
+            w.user_state = 8;
+            c.probe_pct = 40;
+            c.probe_k = if thorough { 24 } else { 10 };
+            c.crashes = false;
+        }
+        "C02" => {
+            w.tpi = 14;
+            w.invite = 10;
+            w.restricted_join = 8;
+            c.tamper_pct = t.range(5, 25);
+            c.probe_pct = 50;
+            c.probe_k = if thorough { 16 } else { 8 };
+        }
+        "C03" => {
+            w.tpi = 8;
+            w.restricted_join = 8;
+            w.join_rules = 8;
+            w.aliases = 4;
+            w.redaction = 4;
+            c.tamper_pct = t.range(10, 35);
+            c.relay_redact_pct = t.range(5, 25);
+            c.crashes = t.chance(1, 2);
+        }
+        "C04" => {
+            w.aliases = 5;
+            w.redaction = 6;
+            w.tpi = 6;
+            w.restricted_join = 6;
+            w.name = 8;
+            c.relay_redact_pct = t.range(10, 40);
+            c.probe_pct = 50;
+            c.probe_k = if thorough { 24 } else { 10 };
+        }
+        "C05" => {
+            c.big_events = true;
+            w.message = 25;
+            c.tamper_pct = t.range(5, 25);
+            c.relay_redact_pct = t.range(5, 20);
+            c.crashes = t.chance(1, 2);
+        }
+        "C06" => {
+            w.power_levels = 14;
+            w.join_rules = 8;
+            w.ban = 8;
+            w.kick = 6;
+            w.name = 10;
+            c.partitions = true;
+            c.clock_faults = true;
+            c.crashes = t.chance(1, 2);
+            c.resolve_repeats = t.range(1, 3);
+            c.threads = t.chance(1, 2);
+            c.probe_pct = 15;
+            c.tamper_pct = 0;
+            c.corrupt_pct = 0;
+        }
+        "C07" => {
+            w.power_levels = 14;
+            w.join_rules = 9;
+            w.ban = 9;
+            w.kick = 6;
+            w.join = 12;
+            w.name = 10;
+            c.partitions = true;
+            c.clock_faults = t.chance(2, 3);
+            c.byz_pct = if t.chance(1, 2) { t.range(5, 25) } else { 0 };
+            c.late_power_levels = t.chance(1, 2);
+            c.probe_pct = 20;
+            c.tamper_pct = 0;
+            c.corrupt_pct = 0;
+        }
+        "C08" => {
+            w.join = 12;
+            w.invite = 8;
+            w.kick = 6;
+            w.ban = 7;
+            w.unban = 5;
+            w.knock = 6;
+            w.restricted_join = 6;
+            w.tpi = 5;
+            w.power_levels = 12;
+            w.aliases = 3;
+            w.redaction = 3;
+            w.user_state = 4;
+            c.byz_pct = t.range(5, 30);
+            c.probe_pct = 60;
+            c.probe_k = if thorough { 32 } else { 10 };
+            c.tamper_pct = 0;
+            c.corrupt_pct = 0;
+        }
+        "C09" => {
+            w.tpi = 8;
+            w.restricted_join = 8;
+            w.knock = 6;
+            w.invite = 8;
+            c.byz_pct = t.range(0, 20);
+            c.probe_pct = 60;
+            c.probe_k = if thorough { 32 } else { 10 };
+            c.partitions = true;
+            c.tamper_pct = 0;
+            c.corrupt_pct = 0;
+        }
+        "C20" => {
+            w.power_levels = 25;
+            c.probe_pct = 70;
+            c.probe_k = if thorough { 12 } else { 4 };
+            c.tamper_pct = 0;
+            c.corrupt_pct = 0;
+            c.crashes = false;
+            if c.v < 3 {
+                c.v = 3 + t.below(9) as u8;
+            }
+        }
+        _ => {}
+    }
+    c.w = w;
+    c
+}
+
+fn server_names(t: &mut Tape, n: usize) -> Vec<String> {
+    let pool = ["alpha.example", "beta.example:8448", "10.1.2.3", "gamma.example", "[2001:db8::1]", "delta.example:443", "[::1]:8008", "epsilon.test"];
+    let mut idx: Vec<usize> = (0..pool.len()).collect();
+    t.shuffle(&mut idx);
+    idx.into_iter().take(n).map(|i| pool[i].to_string()).collect()
+}
+
+impl Engine for FedEngine {
+    fn name(&self) -> &'static str {
+        "simfed"
+    }
+
+    fn stack_bytes(&self) -> usize {
+        8 << 20
+    }
+
+    fn spec(&self, property: &str, tier: Tier) -> Option<CheckSpec> {
+        if !PROPS.contains(&property) {
+            return None;
+        }
+        let quick = tier == Tier::Quick;
+        let (rule, probes): (&str, Vec<&str>) = match property {
+            "C01" => ("non-trivial run: >=1 respelled PDU ingested by a Ruma node, >=1 value with non-ASCII / escaped characters, >=1 boundary-number refusal probe", vec!["fault.respell", "json.values", "json.non-canonical-numbers"]),
+            "C02" => ("non-trivial run: >=1 object signed by >=2 entities and >=1 tampered copy verified", vec!["sign.json-compared", "sign.multi-entity-objects", "sign.malformed-signatures", "verify.json-compared"]),
+            "C03" => ("non-trivial run: >=1 event verified after redaction by a relay and >=1 tamper of each of the three classes (unsigned / stripped / kept)", vec!["fault.relay_redact", "fault.tamper.unsigned", "fault.tamper.stripped_content", "fault.tamper.kept_field", "fault.tamper.signature", "fault.tamper.key_id", "sign.countersign-compared", "verify.signatures", "verify.fail"]),
+            "C04" => ("non-trivial run: >=1 relay-redacted copy and >=5 redaction probes over special event types", vec!["redact.probes", "fault.relay_redact", "rx.redacted-copy-stored"]),
+            "C05" => ("non-trivial run: >=1 event ID recomputed from a redacted copy and >=1 boundary-size event (65535±2 bytes)", vec!["act.boundary-size", "size.refused-above-limit", "fault.relay_redact", "size.boundary.0", "size.boundary.1"]),
+            "C06" => ("non-trivial run: >=1 resolve with >=2 conflicted keys, an auth difference of >=2 events and >=1 (power, ts) tie, repeated under permuted arguments / fresh hash keys", vec!["agree.repetitions", "agree.identity-probes", "agree.thread-runs", "agree.node-comparisons", "resolve.power-ts-tie", "resolve.three-or-more-sets", "restart.reloads"]),
+            "C07" => ("non-trivial run: >=1 resolve with conflicted power events compared with rsr2, and >=1 of: (power,ts) tie, mixed power-level ancestry, event rejected during resolution, >=3 state sets", vec!["resolve.compared-with-rsr2", "resolve.power-ts-tie", "resolve.mixed-mainline-ancestry", "resolve.rejected-in-resolution", "resolve.three-or-more-sets", "probe.toposorts", "probe.subset-resolutions"]),
+            "C08" => ("non-trivial run: >=20 candidate events judged against history-reached states, covering >=6 distinct (kind, verdict, rule) cells", vec!["probe.candidates", "byz.twists"]),
+            "C09" => ("non-trivial run: member events of >=3 memberships selected and compared, and >=1 perturbation of an entry whose type the rules read for other events", vec!["ni.perturbations", "ni.perturbed-auth-relevant-type", "ni.reads-checked"]),
+            _ => ("non-trivial run: >=5 helper/authorization comparisons on a history-reached power-levels event", vec!["plh.compared.user_can_ban_user", "plh.compared.user_can_kick_user", "plh.compared.user_can_unban_user", "plh.compared.user_can_invite", "plh.compared.user_can_send_message", "plh.compared.user_can_send_state", "plh.compared.notifications", "plh.compared.for_user"]),
+        };
+        Some(CheckSpec {
+            property: property.to_string(),
+            profile: property.to_string(),
+            runs: if quick { 6_000 } else { 200_000 },
+            wall_cap: Duration::from_secs(if quick { 50 } else { 900 }),
+            rule: format!(
+                "one run = one simulated federation: room version 1-11 (via RoomVersionId), 2-5 servers (Ruma = real calls, Ref = reference models, Byz = rule-breaking but correctly signing), \
+                 simulated clients issuing 10-40 (thorough -70) actions, transport faults, crash/restart, clock faults, observer probes; profile '{property}' biases workload and faults. {rule}. \
+                 Distinct = distinct fingerprint (hash of the sequence of created events' (label, type, number of prev events), room version, server kinds and fault kinds that fired)."
+            ),
+            real_components: vec![
+                "serde_json → ruma_common::CanonicalJsonObject parsing; ruma_signatures::canonical_json; to_canonical_value".into(),
+                "ruma_signatures::{reference_hash, content_hash, verify_event, hash_and_sign_event, sign_json, verify_json, Ed25519KeyPair::from_der}".into(),
+                "ruma_common::canonical_json::{redact, redact_in_place, redact_content_in_place}".into(),
+                "ruma_state_res::{auth_types_for_event, auth_check, resolve, lexicographical_topological_sort, events::RoomPowerLevelsEvent}".into(),
+                "ruma_events::room::power_levels::RoomPowerLevels helpers; ruma_common::push::PushCondition::SenderNotificationPermission".into(),
+                "RoomVersionId::rules() for room versions 1-11".into(),
+            ],
+            stub_components: vec![
+                "event store, fetch-missing-ancestors, forward extremities, rejected-event bookkeeping, anti-entropy (homeserver glue)".into(),
+                "transport (drop/dup/delay/partition/stall/respell/corrupt/tamper/relay-redact), simulated clocks, crash/restart and stub disk".into(),
+                "simulated clients, Byzantine servers, identity server".into(),
+                "SimPdu (implements the ruma_state_res::Event trait seam)".into(),
+                "Ref nodes and all oracles: refmodel::{rj, rsha, rb64, revent, rauth, rsr2}".into(),
+            ],
+            assumptions: vec![
+                "reference semantics of DESIGN.md Appendix A; inputs outside the spec-decidable envelope (§4.5) are not judged".into(),
+                "ed25519-dalek is the only Ed25519 available (trusted base)".into(),
+                "stub omits soft-failure, partial-state joins, key rotation; a node processes an event only with its full ancestry".into(),
+                "room version 1 runs the v2 resolution algorithm (what-if, stated in DESIGN §4.2)".into(),
+            ],
+            probes: probes.into_iter().map(|s| s.to_string()).collect(),
+            fault_prefix: "fault.".into(),
+        })
+    }
+
+    fn run(&self, profile: &str, tier: Tier, t: &mut Tape, trace: bool, known: &Known) -> RunOutcome {
+        let cfg = make_cfg(profile, tier, t);
+        let v = cfg.v;
+        // world
+        let n_servers = t.range(2, 5) as usize;
+        let names = server_names(t, n_servers);
+        let mut kinds: Vec<Kind> = (0..n_servers)
+            .map(|i| {
+                if i == 0 {
+                    Kind::Ruma
+                } else {
+                    match t.below(10) {
+                        0..=4 => Kind::Ruma,
+                        5..=7 => Kind::Ref,
+                        _ => {
+                            if cfg.byz_pct > 0 {
+                                Kind::Byz
+                            } else {
+                                Kind::Ref
+                            }
+                        }
+                    }
+                }
+            })
+            .collect();
+        t.shuffle(&mut kinds);
+        let mut servers = Vec::new();
+        let mut keys: refmodel::revent::Keys = BTreeMap::new();
+        let mut all_users = Vec::new();
+        for (i, name) in names.iter().enumerate() {
+            let mut seed = [0u8; 32];
+            for b in seed.iter_mut() {
+                *b = t.below(256) as u8;
+            }
+            let key_version = (*t.pick(&["1", "a_b", "0", "auto", "Zz9"])).to_string();
+            let sk = SignKey::from_seed(seed, &key_version);
+            keys.entry(name.clone()).or_default().insert(sk.key_id(), sk.public().to_vec());
+            let n_users = t.range(1, 3);
+            let users: Vec<String> = (0..n_users).map(|u| format!("@{}{}:{}", ["u", "user.", "x_"][u as usize % 3], i, name)).collect();
+            all_users.extend(users.iter().cloned());
+            let skew = match t.below(4) {
+                0 => 0,
+                1 => t.below(5_000) as i64 - 2_500,
+                2 => t.below(7_200_000) as i64 - 3_600_000,
+                _ => 0,
+            };
+            servers.push(Server {
+                name: name.clone(),
+                kind: kinds[i],
+                seed,
+                key_version,
+                users,
+                skew,
+                clock_frozen_at: None,
+                clock_jump: 0,
+                up: true,
+                stalled_until: 0,
+                disk: Vec::new(),
+                have: BTreeMap::new(),
+                dag: BTreeMap::new(),
+                pending: BTreeMap::new(),
+                extremities: BTreeSet::new(),
+                current: None,
+                kp: None,
+                next_local: 0,
+            });
+        }
+        let creator_server = t.index(n_servers);
+        let creator = servers[creator_server].users[0].clone();
+        let room_id = format!("!room{}:{}", t.below(100), servers[creator_server].name);
+        let mut id_seed = [0u8; 32];
+        for b in id_seed.iter_mut() {
+            *b = t.below(256) as u8;
+        }
+        keys.entry("id.example".into()).or_default().insert("ed25519:0".into(), SignKey::from_seed(id_seed, "0").public().to_vec());
+        let key_map = real::key_map(&keys);
+        let mut s = Sim {
+            t,
+            out: RunOutcome::default(),
+            trace,
+            known,
+            rules: real::rules(v),
+            cfg: cfg.clone(),
+            servers,
+            room_id,
+            creator,
+            all_users,
+            keys,
+            key_map,
+            idserver: SignKey::from_seed(id_seed, "0"),
+            sched: Sched::new(),
+            dag: BTreeMap::new(),
+            texts: BTreeMap::new(),
+            records: BTreeMap::new(),
+            partition: None,
+            faults_on: true,
+            failed: false,
+            after_known: false,
+            actions_done: 0,
+            fp: simcore::fnv(format!("v{v}").as_bytes()),
+            harness_error: None,
+            created_room: false,
+            message_ids: Vec::new(),
+            flags: BTreeSet::new(),
+        };
+        let kinds_s: Vec<String> = s.servers.iter().map(|x| format!("{}={:?}", x.name, x.kind)).collect();
+        s.mix(&kinds_s.join(","));
+        s.log(|| format!("room version {v}; servers {}; creator {}; profile {} cfg drop={} dup={} respell={} corrupt={} tamper={} relay_redact={} partitions={} crashes={} clock={} byz={}", kinds_s.join(" "), "", cfg.profile, cfg.drop_pct, cfg.dup_pct, cfg.respell_pct, cfg.corrupt_pct, cfg.tamper_pct, cfg.relay_redact_pct, cfg.partitions, cfg.crashes, cfg.clock_faults, cfg.byz_pct));
+        // key pairs of Ruma nodes come from their stored PKCS#8 document through the real parser
+        for i in 0..s.servers.len() {
+            if s.servers[i].kind == Kind::Ruma {
+                match real::keypair(&s.servers[i].seed, &s.servers[i].key_version) {
+                    Ok(kp) => s.servers[i].kp = Some(kp),
+                    Err(e) => {
+                        s.violate("C02", "rsig/from_der.rejected-valid-document".into(), serde_json::json!({"error": e}));
+                    }
+                }
+            }
+        }
+        // schedule
+        s.create_room(creator_server);
+        for i in 0..s.servers.len() {
+            let d = s.t.below(200) as u64;
+            s.sched.after(d, Evt::Client(i));
+            s.sched.after(500 + s.t.below(500) as u64, Evt::AntiEntropy(i));
+            s.sched.after(300 + s.t.below(300) as u64, Evt::RetryPending(i));
+        }
+        if cfg.partitions {
+            let d = s.t.range(200, 4000) as u64;
+            s.sched.after(d, Evt::PartitionStart);
+        }
+        if cfg.crashes {
+            let who = s.t.index(s.servers.len());
+            let d = s.t.range(500, 8000) as u64;
+            s.sched.after(d, Evt::Crash(who));
+        }
+        if cfg.clock_faults {
+            let who = s.t.index(s.servers.len());
+            let d = s.t.range(100, 3000) as u64;
+            s.sched.after(d, Evt::ClockFault(who));
+        }
+        if cfg.stalls {
+            let who = s.t.index(s.servers.len());
+            let d = s.t.range(300, 6000) as u64;
+            s.sched.after(d, Evt::Stall(who));
+        }
+        s.sched.after(100, Evt::Probe);
+        let step_cap = 5_000u64;
+        let mut quiesce_started_at: Option<u64> = None;
+        while let Some((_seq, ev)) = s.sched.pop() {
+            if s.stop() || s.sched.steps > step_cap || s.sched.now > 30 * 60 * 1000 {
+                break;
+            }
+            match ev {
+                Evt::Client(n) => {
+                    if s.faults_on && s.actions_done < s.cfg.n_actions {
+                        if s.servers[n].up {
+                            s.client_action(n);
+                        }
+                        let gap = if s.t.chance(1, 5) { s.t.range(1, 30) } else { s.t.range(30, 900) };
+                        s.sched.after(gap as u64, Evt::Client(n));
+                    } else if s.faults_on {
+                        // workload exhausted: end the fault phase once
+                        s.sched.after(1, Evt::EndFaults);
+                    }
+                }
+                Evt::Deliver { src, dst, msg, ledger } => {
+                    if !s.servers[dst].up {
+                        s.bump("fault.delivered-to-crashed-node");
+                        continue;
+                    }
+                    if s.blocked(src, dst) {
+                        s.bump("fault.partition-blocked");
+                        continue;
+                    }
+                    if s.servers[dst].stalled_until > s.sched.now {
+                        let until = s.servers[dst].stalled_until;
+                        s.sched.at(until + 1, Evt::Deliver { src, dst, msg, ledger });
+                        s.bump("fault.stall-held");
+                        continue;
+                    }
+                    s.deliver(src, dst, msg, &ledger);
+                }
+                Evt::AntiEntropy(n) => {
+                    if s.servers[n].up {
+                        let heads: Vec<String> = s.servers[n].extremities.iter().cloned().collect();
+                        if !heads.is_empty() && s.servers.len() > 1 {
+                            let mut peer = s.t.index(s.servers.len() - 1);
+                            if peer >= n {
+                                peer += 1;
+                            }
+                            s.send(n, peer, Msg::Heads(heads));
+                        }
+                    }
+                    if quiesce_started_at.is_none() || s.sched.steps < step_cap {
+                        let d = 400 + s.t.below(400) as u64;
+                        s.sched.after(d, Evt::AntiEntropy(n));
+                    }
+                }
+                Evt::RetryPending(n) => {
+                    if s.servers[n].up && !s.servers[n].pending.is_empty() && s.servers.len() > 1 {
+                        let missing: BTreeSet<String> = s.servers[n].pending.values().flat_map(|(_, m)| m.iter().cloned()).filter(|m| !s.servers[n].have.contains_key(m) && !s.servers[n].pending.contains_key(m)).collect();
+                        if !missing.is_empty() {
+                            let mut peer = s.t.index(s.servers.len() - 1);
+                            if peer >= n {
+                                peer += 1;
+                            }
+                            s.send(n, peer, Msg::Fetch(missing.into_iter().take(20).collect()));
+                        }
+                    }
+                    let d = 300 + s.t.below(300) as u64;
+                    s.sched.after(d, Evt::RetryPending(n));
+                }
+                Evt::PartitionStart => {
+                    if s.faults_on && s.servers.len() >= 2 {
+                        let mut side = BTreeSet::new();
+                        for i in 0..s.servers.len() {
+                            if s.t.chance(1, 2) {
+                                side.insert(i);
+                            }
+                        }
+                        if side.is_empty() {
+                            side.insert(0);
+                        }
+                        if side.len() == s.servers.len() {
+                            side.remove(&0);
+                        }
+                        s.log(|| format!("PARTITION {side:?} | rest"));
+                        s.partition = Some(side);
+                        s.bump("fault.partition");
+                        let d = s.t.range(500, 15_000) as u64;
+                        s.sched.after(d, Evt::PartitionHeal);
+                    }
+                }
+                Evt::PartitionHeal => {
+                    if s.partition.take().is_some() {
+                        s.log(|| "partition healed".to_string());
+                        s.bump("fault.heal");
+                    }
+                    if s.faults_on && s.t.chance(2, 3) {
+                        let d = s.t.range(500, 8000) as u64;
+                        s.sched.after(d, Evt::PartitionStart);
+                    }
+                }
+                Evt::Crash(n) => {
+                    if s.faults_on {
+                        s.crash(n);
+                        let d = s.t.range(100, 6000) as u64;
+                        s.sched.after(d, Evt::Restart(n));
+                    }
+                }
+                Evt::Restart(n) => {
+                    s.restart(n);
+                    if s.faults_on && s.t.chance(1, 2) {
+                        let who = s.t.index(s.servers.len());
+                        let d = s.t.range(500, 8000) as u64;
+                        s.sched.after(d, Evt::Crash(who));
+                    }
+                }
+                Evt::Stall(n) => {
+                    if s.faults_on {
+                        s.servers[n].stalled_until = s.sched.now + s.t.range(200, 8000) as u64;
+                        s.bump("fault.stall");
+                    }
+                }
+                Evt::ClockFault(n) => {
+                    if s.faults_on {
+                        match s.t.below(4) {
+                            0 => {
+                                // freeze: concurrent events get identical origin_server_ts
+                                s.servers[n].clock_frozen_at = Some(s.sched.now);
+                                s.bump("fault.clock.freeze");
+                            }
+                            1 => {
+                                s.servers[n].clock_frozen_at = None;
+                                s.servers[n].clock_jump -= s.t.range(1_000, 86_400_000) as i64;
+                                s.bump("fault.clock.jump-back");
+                            }
+                            2 => {
+                                s.servers[n].clock_frozen_at = None;
+                                s.servers[n].clock_jump += s.t.range(1_000, 86_400_000) as i64;
+                                s.bump("fault.clock.jump-forward");
+                            }
+                            _ => {
+                                // all clocks frozen to the same instant: ties across servers
+                                let now = s.sched.now;
+                                for sv in s.servers.iter_mut() {
+                                    sv.clock_frozen_at = Some(now);
+                                    sv.skew = 0;
+                                    sv.clock_jump = 0;
+                                }
+                                s.bump("fault.clock.freeze-all");
+                            }
+                        }
+                        let who = s.t.index(s.servers.len());
+                        let d = s.t.range(200, 5000) as u64;
+                        s.sched.after(d, Evt::ClockFault(who));
+                    }
+                }
+                Evt::Probe => {
+                    if s.faults_on {
+                        if s.t.chance(s.cfg.probe_pct, 100) {
+                            s.probe();
+                        }
+                        let d = s.t.range(100, 1500) as u64;
+                        s.sched.after(d, Evt::Probe);
+                    }
+                }
+                Evt::EndFaults => {
+                    if s.faults_on {
+                        // quiescence: heal links, restart crashed nodes, silence Byzantine servers
+                        s.faults_on = false;
+                        s.partition = None;
+                        for i in 0..s.servers.len() {
+                            s.servers[i].stalled_until = 0;
+                            if !s.servers[i].up {
+                                s.restart(i);
+                            }
+                        }
+                        quiesce_started_at = Some(s.sched.steps);
+                        s.log(|| "fault phase over: links healed, nodes restarted; waiting for convergence".to_string());
+                    }
+                }
+            }
+            // convergence reached?
+            if let Some(start) = quiesce_started_at {
+                if s.converged() {
+                    s.bump("liveness.converged");
+                    break;
+                }
+                if s.sched.steps - start > 2_000 {
+                    s.bump("liveness.not-converged-within-2000-steps");
+                    s.log(|| "no convergence within 2000 steps after the fault phase".to_string());
+                    break;
+                }
+            }
+        }
+        s.finish()
+    }
+}
+
+impl<'a> Sim<'a> {
+    fn deliver(&mut self, src: usize, dst: usize, msg: Msg, ledger: &Ledger) {
+        match msg {
+            Msg::Pdu(text) => {
+                let (a, b) = (self.servers[src].name.clone(), self.servers[dst].name.clone());
+                if *ledger != Ledger::Clean {
+                    self.log(|| format!("{a} -> {b}: PDU ({} bytes) transport={ledger:?}", text.len()));
+                }
+                self.on_pdu(dst, src, &text, ledger, false);
+            }
+            Msg::Fetch(ids) => {
+                // serve what we have (the stored text, as received)
+                let found: Vec<String> = ids.iter().filter_map(|id| self.servers[dst].disk.iter().find(|(i, _)| i == id).map(|(_, t)| t.clone())).collect();
+                self.bump("net.fetch-served");
+                for text in found {
+                    self.send(dst, src, Msg::Pdu(text));
+                }
+            }
+            Msg::Heads(ids) => {
+                let unknown: Vec<String> = ids.into_iter().filter(|id| !self.servers[dst].have.contains_key(id) && !self.servers[dst].pending.contains_key(id)).collect();
+                if !unknown.is_empty() {
+                    self.send(dst, src, Msg::Fetch(unknown));
+                }
+            }
+        }
+    }
+
+    /// I5: every honest node holds the same accepted events and the same current state.
+    fn converged(&mut self) -> bool {
+        let honest: Vec<usize> = (0..self.servers.len()).filter(|&i| self.servers[i].kind != Kind::Byz).collect();
+        if honest.iter().any(|&i| !self.servers[i].up || !self.servers[i].pending.is_empty()) {
+            return false;
+        }
+        let sets: Vec<BTreeSet<&String>> = honest.iter().map(|&i| self.servers[i].have.iter().filter(|(_, x)| x.accepted).map(|(k, _)| k).collect()).collect();
+        if !sets.windows(2).all(|w| w[0] == w[1]) {
+            return false;
+        }
+        // accepted events created by honest servers must have reached everybody
+        let ext: Vec<&BTreeSet<String>> = honest.iter().map(|&i| &self.servers[i].extremities).collect();
+        ext.windows(2).all(|w| w[0] == w[1])
+    }
+
+    fn finish(mut self) -> RunOutcome {
+        // fault kinds that fired are part of the fingerprint
+        let fired: Vec<String> = self.out.counters.keys().filter(|k| k.starts_with("fault.")).cloned().collect();
+        self.mix(&fired.join(","));
+        let f = &self.flags;
+        let c = |k: &str| self.out.counters.get(k).copied().unwrap_or(0);
+        let cells = self.out.counters.keys().filter(|k| k.starts_with("auth.cell.")).count();
+        let sel_member_cells = self.out.counters.keys().filter(|k| k.starts_with("sel.cell.member.")).count();
+        let plh: u64 = self.out.counters.iter().filter(|(k, _)| k.starts_with("plh.compared.")).map(|(_, v)| *v).sum();
+        self.out.nontrivial = match self.cfg.profile.as_str() {
+            "C01" => f.contains("c01.respelled") && f.contains("c01.nonascii") && f.contains("c01.boundary-number"),
+            "C02" => f.contains("c02.multi-signer") && f.contains("c02.tampered"),
+            "C03" => f.contains("c03.verified-redacted-copy") && f.contains("c03.tamper.unsigned") && f.contains("c03.tamper.stripped") && f.contains("c03.tamper.kept"),
+            "C04" => c("fault.relay_redact") >= 1 && c("redact.probes") >= 5,
+            "C05" => f.contains("c05.id-from-redacted") && c("act.boundary-size") >= 1,
+            "C06" => f.contains("sr.two-conflicted-keys") && f.contains("sr.auth-diff") && f.contains("sr.power-ts-tie") && c("agree.repetitions") >= 1,
+            "C07" => c("resolve.with-power-events") >= 1 && c("resolve.compared-with-rsr2") >= 1 && (f.contains("sr.power-ts-tie") || f.contains("sr.mixed-mainline") || f.contains("sr.rejected-in-resolution") || f.contains("sr.three-sets")),
+            "C08" => c("probe.candidates") >= 20 && cells >= 6,
+            "C09" => sel_member_cells >= 3 && f.contains("c09.perturbed-auth-type"),
+            "C20" => plh >= 5,
+            _ => false,
+        };
+        self.out.fingerprint = self.fp;
+        self.out.sim_time_ms = self.sched.now;
+        self.out.steps = self.sched.steps;
+        self.out.harness_error = self.harness_error.take();
+        self.out
+    }
+}
+
+fn main() {
+    std::process::exit(simcore::driver_main(&FedEngine));
+}
